@@ -249,15 +249,14 @@ def execute(plan: dict[str, Any]) -> dict[str, Any]:
         canon_log = world.drain_log()
         canon_obs = observe_chart(canon, ordered=False)
         canon_digest = rng.digest(canon_obs)
-        canon_track_log = sorted(r for r in canon_log if r[0] != "chartparse.chart")
+        # what the canonical variant logs (unparsable-line reports of its own bodies); compared
+        # by message text only, so that renaming or merging loggers is not reported
+        canon_msgs = sorted(r[2] for r in canon_log)
         iso = isolated_track_digests(doc)
         world.drain_log()
         bad = check_routing(canon_obs, model, iso)
         if bad:
             violations.append({"sig": f"C06/{bad[0]}/canonical/-", "detail": "canonical variant: " + bad[1]})
-        if any(r[0] == "chartparse.chart" for r in canon_log):
-            violations.append({"sig": "C06/unknown-warning/canonical/-",
-                               "detail": f"a file without unknown sections logged {canon_log[:3]}"})
         for h in model["tracks"].values():
             probes["header:" + h["header"]] = 1
         for vi, v in enumerate(plan["variants"]):
@@ -314,21 +313,26 @@ def execute(plan: dict[str, Any]) -> dict[str, Any]:
                 violations.append({"sig": f"C06/invariance/{dim}/eq",
                                    "detail": f"variant {vi} ({dim}): chart != canonical chart"})
                 continue
-            chart_log = [r for r in log if r[0] == "chartparse.chart"]
+            # every unknown section is reported exactly once (a record naming it); everything
+            # else that is logged equals what the canonical variant logs
+            msgs = [r[2] for r in log]
+            rest = list(msgs)
             for name in v["unknown"]:
-                n_hit = sum(1 for r in chart_log if name in r[2])
-                if n_hit != 1:
-                    violations.append({"sig": f"C06/unknown-warning/{dim}/{min(n_hit, 2)}",
+                hits = [m for m in msgs if name in m]
+                if len(hits) != 1:
+                    violations.append({"sig": f"C06/unknown-warning/{dim}/{min(len(hits), 2)}",
                                        "detail": f"variant {vi} ({dim}): unknown section {name!r} was "
-                                                 f"reported {n_hit} times; chart log {chart_log[:4]}"})
-            if len(chart_log) != len(v["unknown"]):
-                violations.append({"sig": f"C06/unknown-warning/{dim}/extra",
-                                   "detail": f"variant {vi} ({dim}): {len(chart_log)} section warnings "
-                                             f"for {len(v['unknown'])} unknown sections: {chart_log[:4]}"})
-            if sorted(r for r in log if r[0] != "chartparse.chart") != canon_track_log:
+                                                 f"reported {len(hits)} times; log {msgs[:4]}"})
+                for m in hits:
+                    if m in rest:
+                        rest.remove(m)
+            if sorted(rest) != canon_msgs:
                 violations.append({"sig": f"C06/invariance/{dim}/warnings",
-                                   "detail": f"variant {vi} ({dim}): line warnings differ from the "
-                                             "canonical variant (an unknown section's body was parsed?)"})
+                                   "detail": f"variant {vi} ({dim}): besides the unknown-section reports "
+                                             f"the log differs from the canonical variant's: "
+                                             f"{[m for m in rest if m not in canon_msgs][:3]} (an unknown "
+                                             "section's body was parsed, or a section was reported that "
+                                             "should not be?)"})
         # [Events] feeds the global events (relative): with its body emptied the three lists are
         # empty and everything else is unchanged
         secs0 = gen.sections(doc)
